@@ -553,7 +553,11 @@ fn main() {
                 use std::os::fd::FromRawFd;
                 let mut c = Client::new(unsafe { std::net::TcpStream::from_raw_fd(fd) });
                 let raw = build_request("GET", "/plain", &[("Host", b"h")], None, None);
-                got_response = Some(c.send(&raw).map_err(|e| e.to_string()).and_then(|_| c.read_response(false, Duration::from_secs(5)).map(|m| m.status())));
+                // what this very client gets is not judged: if a descriptor number below the limit happened to be free, its
+                // connection was accepted *during* the shortage and the handler may have failed for want of descriptors,
+                // which the statement does not forbid; what is judged is that nothing panics and that the listener serves
+                // again afterwards (the liveness probe after the case)
+                let _ = c.send(&raw).map_err(|e| e.to_string()).and_then(|_| c.read_response(false, Duration::from_secs(5)).map(|m| m.status()));
                 c.close();
                 std::thread::sleep(Duration::from_millis(20));
             }
